@@ -115,7 +115,10 @@ def _inspect(dec):
     list(mm.window_patterns())
     list(mm.windows())
     list(mm.all_resources())
-    mm.decode_address(0)
+    # (a driver probing which of a set of fixed addresses are occupied yet: up to 64 addresses spread over the space)
+    span = 1 << mm.addr_width
+    for a in range(0, span, max(1, span // 64)):
+        mm.decode_address(a)
     Fragment.get(dec, None)
 
 
@@ -661,12 +664,40 @@ def _missing(cfg):
     return miss
 
 
+def _decode_disagrees(cfg):
+    """the root map's decode_address() against its own all_resources(): first and last address of every reported range
+    decode to that resource, the address before the first and after the last range (if free) to nothing - also when
+    addresses were looked up while the hierarchy was still being built (the `inspect` histories)"""
+    h = maker(cfg)()
+    infos = list(h.mm.all_resources())
+    bad = []
+    for i in infos:
+        for a in (i.start, i.end - 1):
+            if h.mm.decode_address(a) is not i.resource:
+                bad.append(f"{a:#x} does not decode to {'/'.join(str(p) for n in i.path for p in n)}")
+    covered = lambda a: any(i.start <= a < i.end for i in infos)
+    span = 1 << h.mm.addr_width
+    for a in {0, span - 1} | {i.end for i in infos if i.end < span} | {i.start - 1 for i in infos if i.start > 0}:
+        if not covered(a) and h.mm.decode_address(a) is not None:
+            bad.append(f"free address {a:#x} decodes to a resource")
+    return bad
+
+
 def check(cfg, out, stats):
     import sys
     try:
         miss = _missing(cfg)
+        dis = [] if miss else _decode_disagrees(cfg)
     except (ValueError, TypeError):
-        miss = []          # (a refused configuration is reported by run_queries)
+        miss, dis = [], []          # (a refused configuration is reported by run_queries)
+    if dis:
+        from ..bmc import mark_violation
+        from ..e1 import cfg_key
+        mark_violation("decode-disagrees")
+        out.violations.append({"key": f"decode-disagrees@{cfg_key(cfg)}",
+                               "what": f"C01 the root memory map contradicts itself: {'; '.join(dis[:3])} ({cfg_key(cfg)})",
+                               "query": "decode", "cfg": cfg, "stimulus": [], "prefix": 0, "k": 0, "detail": {}})
+        return
     if miss:
         from ..bmc import mark_violation
         from ..e1 import cfg_key
@@ -683,4 +714,6 @@ def replay(v):
     import sys
     if v["query"] == "inventory":
         return bool(_missing(v["cfg"]))
+    if v["query"] == "decode":
+        return bool(_decode_disagrees(v["cfg"]))
     return _replay(sys.modules[__name__], v)
